@@ -448,6 +448,9 @@ namespace pika::threads::detail {
 
             std::unique_lock<pu_mutex_type> l;
             num_thread = select_active_pu(l, num_thread);
+#if defined(PIKA_VERIF)
+            PIKA_VERIF_POINT(1906, this, num_thread, l.owns_lock() ? 1 : 0);
+#endif
 
             data.schedulehint.mode = execution::thread_schedule_hint_mode::thread;
             data.schedulehint.hint = static_cast<std::int16_t>(num_thread);
@@ -590,6 +593,9 @@ namespace pika::threads::detail {
 
             std::unique_lock<pu_mutex_type> l;
             num_thread = select_active_pu(l, num_thread, allow_fallback);
+#if defined(PIKA_VERIF)
+            PIKA_VERIF_POINT(1906, this, num_thread, l.owns_lock() ? 1 : 0);
+#endif
 
             auto* thrdptr = get_thread_id_data(thrd);
             (void) thrdptr;
